@@ -324,3 +324,84 @@ func wireProblemsRegion(k *kcodec, fl *filled, w wireRec, regionID uint64) []str
 	}
 	return bad
 }
+
+// Every command type on the path that carries it when it is not (or cannot be) on the batch stream: the unary gRPC
+// method CallRPC selects (MaxBatchSize = 0), sent directly through the real RPCClient three times with the same
+// request object. Also prints, per command, which path carries it and whether a wire-level run covers it (W lines).
+func runRPCUnaryDirect(seed int64) {
+	defer config.UpdateGlobal(func(conf *config.Config) { conf.TiKVClient.MaxBatchSize = 0 })()
+	store := newGenStore()
+	defer store.srv.Stop()
+	k := getCodec("x", 0x0102FF)
+	rpc := client.NewRPCClient(client.WithCodec(k.c))
+	defer rpc.Close()
+	tag := []string{k.mode, fmt.Sprintf("%x", k.id), "unary-direct"}
+	for _, ci := range discover() {
+		name := cmdLabel(ci)
+		if ci.ReqType == nil {
+			fmt.Fprintf(out, "W\t%s\tunresolved\tno\n", name)
+			continue
+		}
+		batchable := tikvrpc.NewRequest(ci.T, reflect.New(ci.ReqType.Elem()).Interface()).ToBatchCommandsRequest() != nil
+		method := ""
+		for mn, io := range store.methods {
+			if io[0] == ci.ReqType && (ci.RespType == nil || io[1] == ci.RespType) {
+				method = mn
+			}
+		}
+		switch {
+		case ci.T == tikvrpc.CmdEmpty:
+			fmt.Fprintf(out, "W\t%s\tbatch stream only (keep-alive, no keys)\tn/a\n", name)
+			continue
+		case ci.Stream:
+			fmt.Fprintf(out, "W\t%s\tserver-streaming gRPC method; request encoded by the same EncodeRequest (catalogue), response stream not decoded by the codec\tcatalogue only\n", name)
+			continue
+		case method == "":
+			fmt.Fprintf(out, "W\t%s\tdebugpb.Debug client (CallDebugRPC); no key-bearing field\tcatalogue only\n", name)
+			continue
+		}
+		fl := fill("req", ci.ReqType, reqSentinel("0"))
+		pristine := snapshot(fl.msg)
+		f := fill("req", ci.ReqType, reqSentinel("0"))
+		req := tikvrpc.NewRequest(ci.T, f.msg)
+		rpcRoute(req)
+		tname := ci.ReqType.Elem().Name()
+		store.takeAll(tname)
+		callerBad := ""
+		for n := 0; n < 3; n++ {
+			if _, err := rpc.SendRequest(context.Background(), store.addr, req, 5*time.Second); err != nil {
+				callerBad += fmt.Sprintf(" #%d error %v;", n+1, err)
+			}
+			after := snapshot(req.Req)
+			for p, o := range pristine {
+				if !bytes.Equal(after[p], o) && callerBad == "" {
+					callerBad = fmt.Sprintf("after transmission %d: caller's %s = %s (was %s)", n+1, p, hx(after[p]), hx(o))
+				}
+			}
+		}
+		ws := store.takeAll(tname)
+		prop("rpcu_caller_unchanged", callerBad == "", "-", append(tag, ci.Name, callerBad)...)
+		okN := len(ws) == 3
+		for _, w := range ws {
+			okN = okN && w.path == "unary"
+		}
+		prop("rpcu_transmissions", okN, "-", append(tag, ci.Name, fmt.Sprintf("%d transmissions on the unary path, 3 sent", len(ws)))...)
+		for n, w := range ws {
+			bad := wireProblems(k, fl, w)
+			prop("rpcu_wire_once", len(bad) == 0, "-", append(tag, ci.Name, fmt.Sprintf("unary#%d", n+1), strings.Join(bad, "; "))...)
+			prop("rpcu_retransmit_equal", bytes.Equal(w.raw, ws[0].raw), "-", append(tag, ci.Name, fmt.Sprintf("unary#%d", n+1), "first="+proto.CompactTextString(ws[0].msg), "this="+proto.CompactTextString(w.msg))...)
+		}
+		path := "unary gRPC method " + method
+		if batchable {
+			path = "batch stream (sync + async); " + path + " when batching is off"
+		}
+		fmt.Fprintf(out, "W\t%s\t%s\tyes\n", name, path)
+	}
+}
+
+func cmdLabel(ci *cmdInfo) string {
+	if ci.Name == "Unknown" {
+		return fmt.Sprintf("Cmd%d", ci.T)
+	}
+	return ci.Name
+}
